@@ -1,7 +1,7 @@
 #!/usr/bin/env python3
 """Evaluate seeded changes against the checks.
 
-  tools/seed_eval.py import <worktree> <PID>     copy <worktree>/mutants/m*/ into seeded/<PID>_m*/
+  tools/seed_eval.py import <worktree> <PID> [<prefix>]    copy <worktree>/mutants/m*/ into seeded/<PID>_<prefix>m*/
   tools/seed_eval.py run [<seeded-id> ...] [--checks C01,C05] [--tests]
 
 For every seeded change: apply patch.diff to a scratch copy of /repo (outside /repo and /verif, removed
@@ -25,12 +25,12 @@ def sh(cmd, **kw):
     return subprocess.run(cmd, shell=True, stdout=subprocess.PIPE, stderr=subprocess.STDOUT, text=True, **kw)
 
 
-def do_import(wt, pid):
+def do_import(wt, pid, prefix=""):
     mdir = os.path.join(wt, "mutants")
     for m in sorted(os.listdir(mdir)):
         if not os.path.isdir(os.path.join(mdir, m)) or not os.path.exists(os.path.join(mdir, m, "patch.diff")):
             continue
-        dst = os.path.join(VERIF, "seeded", "%s_%s" % (pid, m))
+        dst = os.path.join(VERIF, "seeded", "%s_%s%s" % (pid, prefix, m))
         os.makedirs(dst, exist_ok=True)
         for f in ("patch.diff", "demo.py", "meta.json"):
             shutil.copy(os.path.join(mdir, m, f), os.path.join(dst, f))
@@ -104,7 +104,7 @@ def run_one(sid, extra_checks, with_tests):
 
 def main():
     if sys.argv[1] == "import":
-        do_import(sys.argv[2], sys.argv[3])
+        do_import(sys.argv[2], sys.argv[3], sys.argv[4] if len(sys.argv) > 4 else "")
         return
     args = sys.argv[2:]
     extra, tests, ids = [], False, []
